@@ -26,7 +26,7 @@ class Unit:
         raise NotImplementedError
 
 
-def run_unit(unit, tier="quick", prefix=(), split=0):
+def run_unit(unit, tier="quick", prefix=(), split=0, budget=0):
     """Explore all paths of a unit (under `prefix`), discharge its obligations.  Returns a picklable summary.
 
     split > 0: explore breadth-first only until `split` prefixes are pending and return them in out["pending"]."""
@@ -41,9 +41,11 @@ def run_unit(unit, tier="quick", prefix=(), split=0):
         base_axioms(c)
         return unit.run(c)
     refuted = set()
+    done_obs = set()
+    unknowns = {}
     try:
         first = not prefix
-        for res in explore(run, unit.fmodel, prefix=prefix, max_paths=unit.max_paths, split=split, pending_out=out["pending"]):
+        for res in explore(run, unit.fmodel, prefix=prefix, max_paths=unit.max_paths, split=split, pending_out=out["pending"], budget=budget):
             out["paths"] += 1
             out["pruned"] += res.pruned
             c = res.ctx
@@ -55,9 +57,19 @@ def run_unit(unit, tier="quick", prefix=(), split=0):
                 first = False
             SYMCACHE.clear()
             # grouped obligations (same path condition): one query for the conjunction first
+            # the same obligation is generated again on every path that extends the decision prefix it was created under (paths
+            # are explored by re-execution): discharge and record it once per worker
+            occ, dup = {}, set()
+            for ob in res.obligations:
+                k_ = (ob.name, tuple(ob.path or ()))
+                occ[k_] = occ.get(k_, 0) + 1
+                k_ = k_ + (occ[k_],)
+                if k_ in done_obs:
+                    dup.add(id(ob))
+                done_obs.add(k_)
             groups = {}
             for ob in res.obligations:
-                if ob.group is not None:
+                if ob.group is not None and id(ob) not in dup:
                     groups.setdefault(ob.group, []).append(ob)
             for gid, obs in groups.items():
                 if len(obs) < 2 or any(o.name in refuted for o in obs):
@@ -71,11 +83,17 @@ def run_unit(unit, tier="quick", prefix=(), split=0):
                     for o in obs:
                         o.verdict, o.backend, o.secs = "unsat", be + "(group)", secs / len(obs)
             for ob in res.obligations:
+                if id(ob) in dup:
+                    continue
                 if ob.verdict == "unsat":
                     pass
                 elif ob.name in refuted and not z3.is_true(ob.goal):
                     # already refuted (with a counter-model) on another path: do not spend solver time on more models
                     ob.verdict, ob.backend, ob.secs, ob.model = "also-failing", "skipped", 0.0, None
+                elif unknowns.get(ob.name, 0) >= 3 and not z3.is_true(ob.goal):
+                    # the solvers gave up on this clause three times already (each costing every time-out of the portfolio):
+                    # further instances are reported undecided without being asked, so that a check always ends
+                    ob.verdict, ob.backend, ob.secs, ob.model = "unknown", "skipped(after 3 unknowns of the same clause)", 0.0, None
                 else:
                     discharge(ob, timeout)
                     needs = None
@@ -92,6 +110,8 @@ def run_unit(unit, tier="quick", prefix=(), split=0):
                             ob.backend = ob2.backend + "+optional:" + ",".join(needs)
                     if ob.verdict == "sat":
                         refuted.add(ob.name)
+                    elif ob.verdict != "unsat":
+                        unknowns[ob.name] = unknowns.get(ob.name, 0) + 1
                 out["solver_s"] += ob.secs
                 rec = {"name": ob.name, "verdict": ob.verdict, "backend": ob.backend, "secs": round(ob.secs, 4),
                        "model": ob.model, "path": "".join("T" if d else "F" for d in (ob.path or [])),
